@@ -18,13 +18,18 @@ import (
 	"encoding/json"
 	"fmt"
 	"math/rand"
+	"net/http"
+	"net/http/httptest"
 	"net/url"
+	"time"
 	"os"
 	"runtime"
 	"strconv"
 	"strings"
 	"sync"
 	"testing"
+
+	middlewareapi "github.com/oauth2-proxy/oauth2-proxy/v7/pkg/apis/middleware"
 )
 
 type vpCase struct {
@@ -289,6 +294,42 @@ func (w *vpWorld) get(j *vpJar, target string, hdr ...[2]string) *vpResp {
 		j.applyAll(r)
 	}
 	return r
+}
+
+// ageSession back-dates the session the jar holds by d: it is loaded through the real store, its creation
+// time moved into the past and saved again through the real store (as if the login had happened earlier).
+// hostReq supplies Host / forwarding headers so that cookie attributes match those of the jar's cookies.
+func (w *vpWorld) ageSession(j *vpJar, d time.Duration, hostReq vpReq) error {
+	var sb strings.Builder
+	host := hostReq.Host
+	if host == "" {
+		host = vpHost
+	}
+	sb.WriteString("GET / HTTP/1.1\r\nHost: " + host + "\r\n")
+	for _, h := range hostReq.Header {
+		sb.WriteString(h[0] + ": " + h[1] + "\r\n")
+	}
+	sb.WriteString("Cookie: " + j.header() + "\r\n\r\n")
+	req, err := http.ReadRequest(bufioReader(sb.String()))
+	if err != nil {
+		return err
+	}
+	// requests normally pass the scope middleware first (reverse-proxy flag lives in the request scope)
+	req = middlewareapi.AddRequestScope(req, &middlewareapi.RequestScope{ReverseProxy: w.opts.ReverseProxy})
+	s, err := w.proxy.sessionStore.Load(req)
+	if err != nil {
+		return fmt.Errorf("load: %v", err)
+	}
+	t := time.Now().Add(-d)
+	s.CreatedAt = &t
+	rec := httptest.NewRecorder()
+	if err := w.proxy.sessionStore.Save(rec, req, s); err != nil {
+		return fmt.Errorf("save: %v", err)
+	}
+	for _, c := range rec.Result().Cookies() {
+		j.applyCookie(c)
+	}
+	return nil
 }
 
 // ---------------------------------------------------------------------------------------------
